@@ -18,7 +18,7 @@ pub struct OpRec {
     pub runs: usize, pub accepted: bool, pub cancelled: bool, pub busy: bool, pub result_ok: Option<bool>, pub nested: bool,
 }
 
-pub struct ObjMon { pub id: usize, pub occ: AtomicI64, pub dead: AtomicBool, pub drops: AtomicUsize, pub free_tick: AtomicU64 }
+pub struct ObjMon { pub id: usize, pub occ: AtomicI64, pub dead: AtomicBool, pub drops: AtomicUsize, pub free_tick: AtomicU64, pub panicked: AtomicBool }
 
 pub struct Payload { mon: Arc<ObjMon>, clock: Arc<AtomicU64>, canary: u64 }
 impl Drop for Payload {
@@ -57,6 +57,9 @@ pub struct Ctx {
     latch_cv: rt::sync::Condvar,
     pub fail_fast: bool,
     pub touch_yield: bool,
+    pub panics_started: AtomicUsize,
+    pub panics_caught: AtomicUsize,
+    pub panic_base: usize,
 }
 
 impl Ctx {
@@ -134,7 +137,8 @@ fn run_body(ctx: &Arc<Ctx>, oid: usize, body: &Vec<Prim>, p: &mut Payload, calle
             Prim::Touch => ctx.touch(oid, p),
             Prim::AwaitEv(_) => { /* only meaningful in future bodies */ }
             Prim::Gate(g) => { let gt = &ctx.gates[*g]; let mut o = gt.open.lock().unwrap(); while !*o { o = gt.cv.wait(o).unwrap(); } }
-            Prim::Panic => { panic!("INTENDED panic in operation {}", oid); }
+            Prim::Panic => { p.mon.panicked.store(true, SeqCst); ctx.panics_started.fetch_add(1, SeqCst); panic!("INTENDED panic in operation {}", oid); }
+            Prim::Signal(e) => { exec_op(ctx, &Op::Fire(*e), caller, true, &mut Local::default()); }
             Prim::Nested(op) => { exec_op(ctx, op, caller, true, &mut Local::default()); }
         }
     }
@@ -150,7 +154,8 @@ fn run_body_async<'a>(ctx: Arc<Ctx>, oid: usize, body: Vec<Prim>, p: &'a mut Pay
                 Prim::Touch => ctx.touch(oid, p),
                 Prim::AwaitEv(e) => { EventFut { ctx: ctx.clone(), e: *e }.await; }
                 Prim::Gate(g) => { let gt = &ctx.gates[*g]; let mut o = gt.open.lock().unwrap(); while !*o { o = gt.cv.wait(o).unwrap(); } }
-                Prim::Panic => { panic!("INTENDED panic in operation {}", oid); }
+                Prim::Panic => { p.mon.panicked.store(true, SeqCst); ctx.panics_started.fetch_add(1, SeqCst); panic!("INTENDED panic in operation {}", oid); }
+                Prim::Signal(e) => { exec_op(&ctx, &Op::Fire(*e), caller, true, &mut Local::default()); }
                 Prim::Nested(op) => { exec_op(&ctx, op, caller, true, &mut Local::default()); }
             }
         }
@@ -186,6 +191,8 @@ pub fn block_on<F: Future + Unpin>(mut f: F, max_polls: Option<usize>) -> Option
 pub struct Local { resumer: Option<desync::scheduler::QueueResumer> }
 
 fn check_ok_token(ctx: &Ctx, oid: usize, what: &str, got: Option<usize>) {
+    let obj = ctx.with_op(oid, |r| r.obj);
+    if got.is_none() && ctx.mons[obj].panicked.load(SeqCst) { return; }       // the operation panicked: its future is cancelled
     let ok = got == Some(oid);
     ctx.with_op(oid, |r| r.result_ok = Some(ok));
     if !ok { ctx.error(what, format!("operation {} returned {:?} instead of its own result", oid, got)); }
@@ -202,6 +209,17 @@ pub fn exec_op(ctx: &Arc<Ctx>, op: &Op, caller: usize, nested: bool, local: &mut
         Op::DropObj(q) => { let o = ctx.objs[*q].lock().unwrap().take(); drop(o); return; }
         Op::Resume => { if let Some(r) = local.resumer.take() { r.resume(); } return; }
         Op::DropResumer => { local.resumer.take(); return; }
+        Op::WaitEv(e) => { block_on(EventFut { ctx: ctx.clone(), e: *e }, None); return; }
+        Op::AwaitUnwind => {
+            // every started panic has been caught either by a caller's top level or at the top of a pool thread
+            loop {
+                let done = ctx.panics_caught.load(SeqCst) + (desync::verif::thread::PANICKED_THREADS.load(SeqCst) - ctx.panic_base);
+                if done >= ctx.panics_started.load(SeqCst) && ctx.panics_started.load(SeqCst) > 0 { break; }
+                rt::thread::yield_now();
+            }
+            return;
+        }
+        Op::ExpectPanic(q) => { expect_panic(ctx, *q, caller); return; }
         _ => {}
     }
     let q = op.obj().unwrap();
@@ -321,12 +339,31 @@ pub trait MaybeSync: Sized { fn sync_wait(self) -> Result<usize, futures::channe
 impl MaybeSync for desync::scheduler::SchedulerFuture<usize> { fn sync_wait(self) -> Result<usize, futures::channel::oneshot::Canceled> { self.sync() } }
 impl<'a> MaybeSync for BoxFuture<'a, Result<usize, futures::channel::oneshot::Canceled>> { fn sync_wait(self) -> Result<usize, futures::channel::oneshot::Canceled> { block_on(self, None).unwrap() } }
 
+/// After the unwinding has finished every scheduling attempt on a panicked object must panic (not run, not block)
+fn expect_panic(ctx: &Arc<Ctx>, q: usize, _caller: usize) {
+    use std::panic::{catch_unwind, AssertUnwindSafe};
+    let obj = match ctx.obj(q) { Some(o) => o, None => return };
+    if !ctx.mons[q].panicked.load(SeqCst) { ctx.error("C15", format!("object {} was expected to have panicked", q)); return; }
+    let ran = Arc::new(AtomicBool::new(false));
+    let attempts: Vec<(&str, Box<dyn FnOnce() + '_>)> = vec![
+        ("desync", Box::new(|| { let r = ran.clone(); obj.desync(move |_| { r.store(true, SeqCst); }); })),
+        ("sync", Box::new(|| { let r = ran.clone(); obj.sync(move |_| { r.store(true, SeqCst); }); })),
+        ("try_sync", Box::new(|| { let r = ran.clone(); let _ = obj.try_sync(move |_| { r.store(true, SeqCst); }); })),
+        ("future_desync", Box::new(|| { let r = ran.clone(); let f = obj.future_desync(move |_| { r.store(true, SeqCst); async {}.boxed() }); let _ = block_on(f, None); })),
+    ];
+    for (name, f) in attempts {
+        let res = catch_unwind(AssertUnwindSafe(f));
+        if res.is_ok() { ctx.error("C15", format!("{} on the panicked object {} returned normally instead of panicking", name, q)); }
+        if ran.load(SeqCst) { ctx.error("C15", format!("{} on the panicked object {} ran its closure", name, q)); }
+    }
+}
+
 pub struct Outcome { pub ctx: Arc<Ctx> }
 
 /// Builds the context (call inside the controlled execution)
 pub fn make_ctx(prog: &Program, fail_fast: bool, touch_yield: bool) -> Arc<Ctx> {
     let clock = Arc::new(AtomicU64::new(0));
-    let mons: Vec<Arc<ObjMon>> = (0..prog.nq).map(|id| Arc::new(ObjMon { id, occ: AtomicI64::new(0), dead: AtomicBool::new(false), drops: AtomicUsize::new(0), free_tick: AtomicU64::new(0) })).collect();
+    let mons: Vec<Arc<ObjMon>> = (0..prog.nq).map(|id| Arc::new(ObjMon { id, occ: AtomicI64::new(0), dead: AtomicBool::new(false), drops: AtomicUsize::new(0), free_tick: AtomicU64::new(0), panicked: AtomicBool::new(false) })).collect();
     let objs = mons.iter().map(|m| StdMutex::new(Some(Arc::new(Desync::new(Payload { mon: m.clone(), clock: clock.clone(), canary: 0xC0FFEE }))))).collect();
     Arc::new(Ctx {
         prog: prog.clone(), objs, mons,
@@ -334,7 +371,24 @@ pub fn make_ctx(prog: &Program, fail_fast: bool, touch_yield: bool) -> Arc<Ctx> 
         gates: (0..prog.ngates).map(|_| Gate { open: rt::sync::Mutex::new(false), cv: rt::sync::Condvar::new() }).collect(),
         clock, ops: StdMutex::new(vec![]), errors: StdMutex::new(vec![]),
         pending: AtomicUsize::new(0), latch: rt::sync::Mutex::new(()), latch_cv: rt::sync::Condvar::new(), fail_fast, touch_yield,
+        panics_started: AtomicUsize::new(0), panics_caught: AtomicUsize::new(0), panic_base: desync::verif::thread::PANICKED_THREADS.load(SeqCst),
     })
+}
+
+/// A top-level operation of a caller: an intended panic that unwinds into the caller (sync contexts, polling task) ends here;
+/// any other panic on a healthy object is a failure of the run
+pub fn exec_top(ctx: &Arc<Ctx>, op: &Op, caller: usize, local: &mut Local) {
+    use std::panic::{catch_unwind, AssertUnwindSafe};
+    let r = catch_unwind(AssertUnwindSafe(|| exec_op(ctx, op, caller, false, local)));
+    if let Err(e) = r {
+        let msg = if let Some(s) = e.downcast_ref::<String>() { s.clone() } else if let Some(s) = e.downcast_ref::<&str>() { s.to_string() } else { String::new() };
+        if msg.starts_with("INTENDED") { ctx.panics_caught.fetch_add(1, SeqCst); }
+        else if msg.starts_with("MONITOR") { std::panic::resume_unwind(e); }
+        else {
+            let on_panicked = op.obj().map(|q| ctx.mons[q].panicked.load(SeqCst)).unwrap_or(false);
+            if !on_panicked { ctx.error("C15", format!("operation {} of caller {} panicked although its object never panicked: {}", fmt_op(op), caller, msg)); }
+        }
+    }
 }
 
 /// Runs the whole program: callers are threads; then waits for quiescence, drops the objects and checks the end-of-run oracles
@@ -344,10 +398,10 @@ pub fn run_program(ctx: &Arc<Ctx>) {
     let mut hs = vec![];
     for (c, ops) in prog.callers.iter().enumerate().skip(1) {
         let (ctx2, ops2) = (ctx.clone(), ops.clone());
-        hs.push(rt::thread::spawn(move || { desync::verif::log("api", "CALLER", c, String::new()); let mut l = Local::default(); for o in &ops2 { exec_op(&ctx2, o, c, false, &mut l); } }));
+        hs.push(rt::thread::spawn(move || { desync::verif::log("api", "CALLER", c, String::new()); let mut l = Local::default(); for o in &ops2 { exec_top(&ctx2, o, c, &mut l); } }));
     }
     desync::verif::log("api", "CALLER", 0, String::new());
-    if let Some(ops) = prog.callers.get(0) { let mut l = Local::default(); for o in ops { exec_op(ctx, o, 0, false, &mut l); } }
+    if let Some(ops) = prog.callers.get(0) { let mut l = Local::default(); for o in ops { exec_top(ctx, o, 0, &mut l); } }
     for h in hs { h.join().unwrap(); }
     desync::verif::log("api", "END", 0, String::new());
     // Quiescence: with a pool, wait without touching the queues; without one, callers must carry the work
@@ -357,7 +411,14 @@ pub fn run_program(ctx: &Arc<Ctx>) {
     }
     let n_at_quiet = ctx.tick();
     // Drop the objects (Desync::drop = sync(free))
-    for q in 0..prog.nq { let o = ctx.objs[q].lock().unwrap().take(); drop(o); }
+    for q in 0..prog.nq {
+        let o = ctx.objs[q].lock().unwrap().take();
+        if ctx.mons[q].panicked.load(SeqCst) {
+            // dropping a panicked object is itself a scheduling attempt: it must fail loudly, and the value is never freed
+            let r = std::panic::catch_unwind(std::panic::AssertUnwindSafe(move || drop(o)));
+            if r.is_ok() && ctx.mons[q].drops.load(SeqCst) > 0 { ctx.error("C15", format!("dropping the panicked object {} ran its free operation", q)); }
+        } else { drop(o); }
+    }
     end_oracles(ctx, n_at_quiet);
     // Teardown of the pool
     let s = desync::scheduler::scheduler();
@@ -370,7 +431,7 @@ pub fn run_program(ctx: &Arc<Ctx>) {
 pub fn end_oracles(ctx: &Arc<Ctx>, _quiet: u64) {
     let ops = ctx.ops.lock().unwrap().clone();
     for (i, r) in ops.iter().enumerate() {
-        if r.kind == 'U' { continue; }
+        if r.kind == 'U' || ctx.mons[r.obj].panicked.load(SeqCst) { continue; }
         if r.accepted && !r.cancelled && r.runs != 1 && !(r.kind == 'Y') { ctx.error("C03", format!("operation {} ({}) ran {} times", i, r.text, r.runs)); }
         if r.busy && r.runs != 0 { ctx.error("C09", format!("try_sync {} returned Busy but ran its closure", i)); }
         if r.kind == 'S' && !(r.inv < r.start && r.start < r.end && r.end < r.ret) { ctx.error("C04", format!("sync {} did not run strictly inside its call: {:?}", i, r)); }
@@ -378,7 +439,7 @@ pub fn end_oracles(ctx: &Arc<Ctx>, _quiet: u64) {
     }
     // C02: real-time order of calls is execution order (same object)
     for (i, a) in ops.iter().enumerate() {
-        if !a.accepted || a.ret == 0 || a.runs == 0 { continue; }
+        if !a.accepted || a.ret == 0 || a.runs == 0 || ctx.mons[a.obj].panicked.load(SeqCst) { continue; }
         for (j, b) in ops.iter().enumerate() {
             if i == j || a.obj != b.obj || !b.accepted || b.runs == 0 { continue; }
             if a.ret < b.inv && !(a.end != 0 && a.end < b.start) {
@@ -388,6 +449,7 @@ pub fn end_oracles(ctx: &Arc<Ctx>, _quiet: u64) {
     }
     // C05: every object freed exactly once, after every operation on it
     for m in ctx.mons.iter() {
+        if m.panicked.load(SeqCst) { continue; }
         let d = m.drops.load(SeqCst);
         if d != 1 { ctx.error("C05", format!("object {} was freed {} times", m.id, d)); }
         let ft = m.free_tick.load(SeqCst);
